@@ -92,6 +92,20 @@ Example C14_ex :
   = ev0 "'(3 x nil t nil t t)".
 Proof. vm_compute. reflexivity. Qed.
 
+(* REFUTED (known findings D50, D45): "equal holds exactly for structurally equal  *)
+(* values" fails of the faithful model for function values, which are compared by   *)
+(* kind only; and interning the name nil gives a symbol that is not nil, which the   *)
+(* reader then returns for the token nil.                                             *)
+Example C14_equal_exactly_structural_refuted_for_functions :
+  ev0 "(equal (lambda (x) x) (lambda (y) (+ y 1)))" = Ok T.
+Proof. vm_compute. reflexivity. Qed.
+Example C14_interning_nil_refuted :
+  ev0 "(eq (intern ""nil"") nil)" = Ok Nil /\
+  (let s0 := init_state [] None in
+   let '(_, s1) := eval_string F0 80 (s2t "(intern ""nil"")") s0 in
+   fst (eval_string F0 80 (s2t "(if nil 1 2)") s1) = Err EType).
+Proof. vm_compute. split; reflexivity. Qed.
+
 Check C14_finite_map : forall ops l k, akeys ops -> akey k = true ->
   puts [] ops = Ok l ->
   ht_find l k = Ok (match latest ops k with Some v => v | None => Nil end).
